@@ -5,6 +5,7 @@ import (
 	"fmt"
 	"net/http"
 	"net/url"
+	"sort"
 	"strings"
 
 	"connectrpc.com/vanguard"
@@ -461,3 +462,7 @@ func spun(c interface {
 	}
 	return false
 }
+
+type drive_ReqSpec = drive.ReqSpec
+
+func sortStrings(s []string) { sort.Strings(s) }
